@@ -163,7 +163,7 @@ class Interp:
         XP = xp_of(xp)
         rng = rng_from(seed)
         d = 3
-        params = [f"par{i}" for i in range(d)]
+        params = ["tau", "phi", "eta"]  # not in alphabetical order
         lo = np.array([-1.0, 0.0, 2.0])
         hi = np.array([3.0, 6.283185307179586, 9.5])
         bounds = {p: (float(a), float(b)) for p, a, b in zip(params, lo, hi)}
@@ -180,7 +180,7 @@ class Interp:
         elif cls == "Affine":
             t = T.AffineTransform(**kw)
         elif cls == "Composite":
-            t = T.CompositeTransform(parameters=params, periodic_parameters=["par1"] if opts["periodic"] else None, prior_bounds=bounds,
+            t = T.CompositeTransform(parameters=params, periodic_parameters=["phi"] if opts["periodic"] else None, prior_bounds=bounds,
                                      bounded_to_unbounded=opts["bounded"], bounded_transform=opts["bounded_transform"],
                                      affine_transform=opts["affine"], eps=opts["eps"], **kw)
         elif cls == "FlowT":
